@@ -23,6 +23,7 @@ Definition contains (needle hay:string) : bool :=
 Record obj := {
   o_immutable : bool;
   o_payload   : bytes;
+  o_payloadi  : N;                                      (* int.from_bytes(payload, "big"), computed once *)
   o_labelmsm  : Z;
   o_unknown   : bool;
   o_satmap    : option (list (Z * string));            (* None = Python None *)
@@ -30,16 +31,16 @@ Record obj := {
   o_attrs     : list (string * value)                   (* remaining __dict__ entries, insertion order *)
 }.
 Definition with_attrs (o:obj) (a:list (string*value)) : obj :=
-  {| o_immutable := o_immutable o; o_payload := o_payload o; o_labelmsm := o_labelmsm o; o_unknown := o_unknown o;
+  {| o_immutable := o_immutable o; o_payload := o_payload o; o_payloadi := o_payloadi o; o_labelmsm := o_labelmsm o; o_unknown := o_unknown o;
      o_satmap := o_satmap o; o_cellmap := o_cellmap o; o_attrs := a |}.
 Definition with_maps (o:obj) (sm:list (Z*string)) (cm:list (Z*(string*string))) : obj :=
-  {| o_immutable := o_immutable o; o_payload := o_payload o; o_labelmsm := o_labelmsm o; o_unknown := o_unknown o;
+  {| o_immutable := o_immutable o; o_payload := o_payload o; o_payloadi := o_payloadi o; o_labelmsm := o_labelmsm o; o_unknown := o_unknown o;
      o_satmap := Some sm; o_cellmap := Some cm; o_attrs := o_attrs o |}.
 Definition with_unknown (o:obj) (u:bool) : obj :=
-  {| o_immutable := o_immutable o; o_payload := o_payload o; o_labelmsm := o_labelmsm o; o_unknown := u;
+  {| o_immutable := o_immutable o; o_payload := o_payload o; o_payloadi := o_payloadi o; o_labelmsm := o_labelmsm o; o_unknown := u;
      o_satmap := o_satmap o; o_cellmap := o_cellmap o; o_attrs := o_attrs o |}.
 Definition with_immutable (o:obj) (i:bool) : obj :=
-  {| o_immutable := i; o_payload := o_payload o; o_labelmsm := o_labelmsm o; o_unknown := o_unknown o;
+  {| o_immutable := i; o_payload := o_payload o; o_payloadi := o_payloadi o; o_labelmsm := o_labelmsm o; o_unknown := o_unknown o;
      o_satmap := o_satmap o; o_cellmap := o_cellmap o; o_attrs := o_attrs o |}.
 
 (* RTCMMessage.__setattr__ on a data attribute *)
@@ -116,10 +117,10 @@ Definition popcount (n:N) : Z :=
   match n with N0 => 0%Z | Npos p => (fix pc (p:positive) : Z := match p with xH => 1 | xO q => pc q | xI q => 1 + pc q end)%Z p end.
 
 (* bits = payloadi >> (payblen - offset - asiz) & ((1 << asiz) - 1) ; negative counts raise ValueError *)
-Definition get_bits (p:bytes) (offset asiz:Z) : outcome N :=
-  let sh := (8 * Z.of_nat (List.length p) - offset - asiz)%Z in
+Definition get_bits (payloadi:N) (payblen:Z) (offset asiz:Z) : outcome N :=
+  let sh := (payblen - offset - asiz)%Z in
   if (sh <? 0)%Z || (asiz <? 0)%Z then Foreign XValue
-  else Ok (N.land (N.shiftr (be p) (Z.to_N sh)) (N.ones (Z.to_N asiz))).
+  else Ok (N.land (N.shiftr payloadi (Z.to_N sh)) (N.ones (Z.to_N asiz))).
 
 Definition zrange (n:nat) : list Z := map Z.of_nat (seq 0 n).
 
@@ -173,7 +174,7 @@ Definition set_single (ident:string) (anam:string) (index:list Z) (s:obj*Z) : ou
                   match o_cellmap o with None => Foreign XType | Some m =>
                     match zassoc i m with Some x => Ok (VStr (codes (snd x)), None) | None => Foreign XKey end end
         | _ =>
-          do bits <- get_bits (o_payload o) offset asiz;
+          do bits <- get_bits (o_payloadi o) (8 * Z.of_nat (List.length (o_payload o)))%Z offset asiz;
           let zb := Z.of_N bits in
           match atyp with
           | TSNT =>
@@ -323,7 +324,7 @@ Definition construct (payload:option bytes) (labelmsm:Z) : outcome obj :=
   | None => Lib EMessage
   | Some p =>
       if too_short p then Lib EMessage else
-      let o0 := {| o_immutable := false; o_payload := p; o_labelmsm := labelmsm; o_unknown := false;
+      let o0 := {| o_immutable := false; o_payload := p; o_payloadi := be p; o_labelmsm := labelmsm; o_unknown := false;
                    o_satmap := None; o_cellmap := None; o_attrs := [] |} in
       do o <- do_attributes o0;
       Ok (with_immutable o true)
